@@ -1762,6 +1762,25 @@ impl<'a> Session<'a> {
                 Res::Ok
             }
             Op::Observe => {
+                // the collection builders the session holds are observed too (what a front end does to show a preview)
+                let _ = self.certs.build();
+                let _ = self.certs.get_plutus_witnesses();
+                let _ = self.certs.get_ref_inputs();
+                let _ = self.certs.get_native_scripts();
+                let _ = self.wdrs.build();
+                let _ = self.wdrs.get_plutus_witnesses();
+                let _ = self.wdrs.get_ref_inputs();
+                let _ = self.mint.build();
+                let _ = self.mint.get_plutus_witnesses();
+                let _ = self.mint.get_ref_inputs();
+                let _ = self.mint.get_native_scripts();
+                let _ = self.votes.build();
+                let _ = self.votes.get_plutus_witnesses();
+                let _ = self.props.build();
+                let _ = self.inb.inputs();
+                let _ = self.inb.get_plutus_input_scripts();
+                let _ = self.inb.get_native_input_scripts();
+                let _ = self.inb.get_ref_inputs();
                 let tx = &self.tx;
                 let r = guard(|| {
                     for _ in 0..2 {
